@@ -41,7 +41,9 @@ def _gen(rng):
     lat = [rng.choice(LATS) if rng.random() < 0.5 else "on" for _ in range(24)]
     return {"interval": interval, "start": rng.choice([1000.0, 1000.25, 1000.1, 1234.567]), "ticks": ticks, "lat": lat,
             "ext_cancel": (rng.choice([0.5, 1.0, 1.5, 2.0, 3.25, 7.0]) if rng.random() < 0.3 else None),
-            "ext_cancel_twice": rng.random() < 0.5, "other": rng.random() < 0.6}
+            "ext_cancel_twice": rng.random() < 0.5, "other": rng.random() < 0.6,
+            # the named callback re-bound after .timer returned and before the first tick is due
+            "redefine_before_first_tick": rng.random() < 0.15}
 
 
 def cases(tier, seed):
@@ -124,6 +126,10 @@ def run_case(ctx, case):
         return res
     if case["other"]:
         kl.ev(k, 'oth::.timer("o";1;ocb)')
+    if case.get("redefine_before_first_tick"):
+        kl.ev(k, "cb::{tickB(0)}")
+        state["defined_version"] = "B"
+        cnt["redefined_before_first_tick"] = 1
     t_start = case["start"]
     horizon = t_start + (len(script) + 3) * (2.5 * unit + unit) + 8 * unit
 
